@@ -5,14 +5,22 @@
 # bare FIN frames (no payload) are not application bytes.  "Sealed under the tunnel's key" is decided by opening the
 # field with ChaCha20-Poly1305 under the key both endpoints reported at the crypto.derive hook.  "Transit never holds
 # the key": nobody but the two endpoints derives a key for the tunnel, and a transit keeps no session-key bearing state.
-# The udp / icmp plaintext fallback needs a dishonest endpoint (all-zero key) and is outside the statement (see C03).
+# The udp / icmp plaintext fallback needs a dishonest endpoint (all-zero key) and is outside the statement (see C03);
+# an HONEST real endpoint, however, must always offer a real ephemeral key: an OPEN / ACK between real agents that carries
+# an all-zero / degenerate key is a violation (nothing can be sealed on that tunnel).
+# Also driven: open wait timing out with a late ACK (no data may leave the ingress before it holds the key) and tunnel
+# teardown racing with return-direction bytes the exit has read but not sealed yet (must be sealed under the tunnel key,
+# in particular not under a wiped all-zero key).
 import vf, _keyagreement as K
 
 
 def run(ctx):
     m = K.model(ctx, "C04")
     notes = []
-    T = K.run_traces(ctx)
+    # ZZV_LOCKRACE: rounds of the deterministic teardown-vs-return-data driver per exit kind and topology;
+    # ZZV_RACE: tunnels of the statistical one (destination writes continuously, ingress closes / resets)
+    T = K.run_traces(ctx, {"ZZV_LOCKRACE": 2 if ctx.quick() else 6, "ZZV_RACE": 40 if ctx.quick() else 1500,
+                           "ZZV_RACE_SAMPLE": 6 if ctx.quick() else 30})
     notes.append(T["note"])
 
     def relevant(ev, kind, prior):
@@ -23,6 +31,9 @@ def run(ctx):
             return "KeyAgreement:data-%s:%s:%s" % (what, kind, ev.get("dir"))
         if ev["ev"] == "Recv":
             return "KeyAgreement:data-altered:%s:recv" % kind
+        if ev["ev"] in ("Open", "Ack") and ev.get("degenerate"):
+            # an honest endpoint must always offer a real key: no key -> nothing can be sealed
+            return "KeyAgreement:honest-endpoint-offers-degenerate-key:%s:%s" % (kind, ev["ev"].lower())
         return None
 
     validated = 0
@@ -47,14 +58,29 @@ def run(ctx):
             kinds_seen[k] = kinds_seen.get(k, 0) + v
         for k, v in info["skipped"].items():
             skipped[k] = skipped.get(k, 0) + v
-        # the harness' own count must agree with what TLC accepted
-        if not findings and not dr and (info["sealed"] != info["data_frames"] or info["marker_hits"]):
-            raise vf.Infra("harness counts (%d data frames, %d sealed, %d marker hits) contradict the accepted trace" % (
-                info["data_frames"], info["sealed"], info["marker_hits"]))
         ds = [e for s in segs for e in s if e["ev"] == "Data"]
         if ds:
             samples.append({"transits": nt, "data_events": ds[:3]})
+    # second line, independent of where TLC stopped: the harness' own per-tunnel counters over EVERY frame of EVERY tunnel
+    # (incl. the scenarios left out above and the close-race tunnels that were not sampled for TLC)
+    race_tunnels = zero_key = 0
+    for tr in T["rec"].of("tunnel"):
+        race_tunnels += 1 if tr.get("race") else 0
+        zero_key += tr.get("zerokey", 0)
+        if tr["sealed"] != tr["data"] or tr["marker"]:
+            ctx.finding("KeyAgreement:frames-not-sealed-under-tunnel-key:%s%s" % (tr["kind"], ":all-zero-key" if tr.get("zerokey") else ""),
+                        "%s tunnel (rid %s, %d transit(s)): %d of %d data-carrying frames on the links do not open under the tunnel's key"
+                        "%s%s" % (tr["kind"], tr["rid"], tr["nt"], tr["data"] - tr["sealed"], tr["data"],
+                                  (", %d of them open under the ALL-ZERO key" % tr["zerokey"]) if tr.get("zerokey") else "",
+                                  (", %d contain the plaintext marker" % tr["marker"]) if tr["marker"] else ""), tr)
+        for fld, what in (("deg_open", "OPEN"), ("deg_ack", "ACK")):
+            if tr.get(fld):
+                ctx.finding("KeyAgreement:honest-endpoint-offers-degenerate-key:%s:%s" % (tr["kind"], what.lower()),
+                            "%s tunnel between honest agents: the %s carried an all-zero / degenerate ephemeral key (no end-to-end key "
+                            "can result)" % (tr["kind"], what), tr)
     for a in T["rec"].of("anomaly"):
+        if a.get("what") == "undecodable data frame":
+            ctx.finding("KeyAgreement:undecodable-data-frame", "a data-carrying frame could not be decoded: %s" % a.get("frame"), a)
         if a.get("what") == "plaintext marker in a non-data frame":
             ctx.finding("KeyAgreement:marker-in-control-frame", "application plaintext visible in a non-data frame: %s" % a.get("frame"), a)
     for st in T["rec"].of("transit_state"):
@@ -79,4 +105,5 @@ def run(ctx):
                  tlc_runs=m["runs"], deviations_caught=m["caught"],
                  tunnels_by_kind=kinds_seen, data_frames_inspected=data_frames, data_frames_sealed=sealed, marker_hits=marker,
                  bare_fin_frames=fin, skipped=skipped, notes=notes,
+                 close_race_tunnels=race_tunnels, frames_opening_under_all_zero_key=zero_key,
                  samples=samples + [{"transit_state": T["rec"].of("transit_state")[:2]}])
